@@ -37,7 +37,7 @@ def _bounds(rng, reversible, finite_only, forced_p=0.08, inf_p=0.15):
     def up():
         if not finite_only and rng.random() < inf_p:
             return None
-        return rng.choice([F(1), F(5), F(10), F(1000), F(1000)])
+        return rng.choice([F(1), F(5), F(10), F(1000), F(1000), F(4000)])     # (fluxes may differ by more than 1000)
     r = rng.random()
     if r < forced_p:                       # forced flux
         lo = rng.choice([F(1, 2), F(1), F(2)])
@@ -202,6 +202,8 @@ def to_cobra(net, solver="glpk", name="net"):
         elif what == "replace":
             rx.add_metabolites({mets[k]: v for k, v in arg.items()}, combine=False)
     obj = {m.reactions.get_by_id(r["id"]): float(F(r["obj"])) for r in net["rxns"] if F(r["obj"]) != 0}
+    if style in (1, 3, 6, 8):
+        m.objective_direction = net["dir"]        # the direction is chosen BEFORE the objective is assigned
     if style >= 5 and style % 2 == 1:
         for rx, c in obj.items():       # one coefficient at a time
             rx.objective_coefficient = c
